@@ -17,6 +17,11 @@ void ob_c17b_conv1d(const ARR<1,2,7>& x, const ARR<3,2,3>& w)
     { VIEW(v, view::conv1d(x, w, None, 1, 0, 2));  SHAPE3(v, 1,3,3, 3); }   // dilation 2: (7-2*2-1)+1
     { VIEW(v, view::conv1d(x, w, None, 2, 1, 2));  SHAPE3(v, 1,3,3, 4); }   // (7+2-4-1)/2+1 = 3
 }
+void ob_c17b_conv1d_batch(const ARR<2,2,7>& x, const ARR<3,2,3>& w)
+{ PIN(x, 2,2,7); PIN(w, 3,2,3);
+    { VIEW(v, view::conv1d(x, w));                 SHAPE3(v, 2,3,5, 5); }   // a batch of 2 samples
+    { VIEW(v, view::conv1d(x, w, None, 2, 1));     SHAPE3(v, 2,3,4, 6); }   // (7+2-3)/2+1 = 4
+}
 #endif
 #if !defined(C17B_PART) || C17B_PART == 2
 void ob_c17b_conv2d(const ARR<1,2,5,6>& x, const ARR<3,2,3,3>& w)
@@ -27,8 +32,12 @@ void ob_c17b_conv2d(const ARR<1,2,5,6>& x, const ARR<3,2,3,3>& w)
     { VIEW(v, view::conv2d(x, w, None, 1, 0, std::array<int,2>{1,2}));               SHAPE4(v, 1,3,3,2, 13); }   // dilation (1,2): W: (6-2*2-1)+1 = 2
     { VIEW(v, view::conv2d(x, w, None, 1, 0, std::array<int,2>{2,1}));               SHAPE4(v, 1,3,1,4, 14); }   // dilation (2,1): H: (5-2*2-1)+1 = 1
 }
+void ob_c17b_conv2d_batch(const ARR<2,2,5,6>& x, const ARR<3,2,3,3>& w)
+{ PIN(x, 2,2,5,6); PIN(w, 3,2,3,3);
+    { VIEW(v, view::conv2d(x, w));                                                   SHAPE4(v, 2,3,3,4, 15); }   // a batch of 2 samples
+}
 #endif
-// (not stated: a batch of more than one sample and groups with several output channels per group - conv2d does not compile for those
-//  constant shapes and aborts for run-time shapes on the unchanged tree; recorded in DESIGN 8.10 as observed defects that were not repaired)
+// (a batch above 1 is stated since the repair F52; still not stated: groups with several output channels per group - the weight is
+//  reshaped to (O/G, G) instead of (G, O/G): recorded in DESIGN 8.10 / 8.14 as an observed defect that was not repaired)
 void ob_c17b_negctl(const ARR<1,2,7>& x, const ARR<3,2,3>& w)
 { PIN(x, 1,2,7); PIN(w, 3,2,3); auto v = nm::unwrap(view::conv1d(x, w)); NEGCTL("C17.NEG.conv_keeps_the_length", (cv::shape_is<1,3,7>(v)), 0); }
